@@ -29,6 +29,39 @@ class InjectedFault(Exception):
         self.node = node
 
 
+class InjectedNoArgs(InjectedFault):
+    """An injected failure that carries no arguments at all (``raise Abort``)."""
+
+    def __init__(self, fid: Any, node: str) -> None:
+        Exception.__init__(self)
+        self.fid = fid
+        self.node = node
+
+
+class InjectedTypeError(TypeError):
+    """A TypeError whose text looks like a call mismatch although it is raised inside the node body."""
+
+    hg_injected = True
+
+    def __init__(self, fid: Any, node: str) -> None:
+        super().__init__(f"helper() got an unexpected keyword argument 'colour' (injected fault {fid} in {node})")
+        self.fid = fid
+        self.node = node
+
+
+class InjectedKeyError(KeyError):
+    hg_injected = True
+
+    def __init__(self, fid: Any, node: str) -> None:
+        super().__init__(f"injected-{fid}-{node}")
+        self.fid = fid
+        self.node = node
+
+
+EXC_KINDS = {"plain": InjectedFault, "noargs": InjectedNoArgs, "typeerror_kw": InjectedTypeError, "keyerror": InjectedKeyError}
+InjectedFault.hg_injected = True
+
+
 class ProcessDeath(BaseException):
     """Simulated death of the process (used by the disk-store crash points)."""
 
@@ -166,7 +199,7 @@ class Runtime:
         f = self._fault_for(rec, when)
         if f is None:
             return
-        exc = InjectedFault(f.get("fid", 0), rec["n"])
+        exc = EXC_KINDS.get(f.get("exc", "plain"), InjectedFault)(f.get("fid", 0), rec["n"])
         exc.args_seen = dict(rec["a"])
         exc.label = self.labels.get(rec["r"], ())
         exc.run_values = self.run_values.get(rec["r"])
@@ -196,6 +229,12 @@ class Runtime:
             elif beh == "const":
                 cv = spec["beh_value"]
                 vals.append(list(cv) if isinstance(cv, list) else cv)
+            elif beh == "snapshot_nested" and j == 0:
+                # the default is a dict holding a mutable value: {"items": [], "count": 0}
+                p = spec["beh_param"]
+                args[p]["items"].append(mix(tag, "m", sorted((k, canon(v)) for k, v in args.items() if k != p)))
+                args[p]["count"] += 1
+                vals.append([list(args[p]["items"]), args[p]["count"]])
             elif beh == "snapshot" and j == 0:
                 # mutate the default-valued list argument, return a snapshot of it
                 p = spec["beh_param"]
